@@ -5,10 +5,11 @@ from checks import esccommon
 
 META = dict(
     functions=['html.c: mmd_print_string_html, mmd_print_char_html', 'latex.c: mmd_print_string_latex, mmd_print_char_latex',
-               'opendocument-content.c: mmd_print_string_opendocument, mmd_print_char_opendocument', 'opml.c: mmd_print_source_opml', 'itmz.c: mmd_print_source_itmz'],
-    stubs=['d_string.c -> ds_model (C19)'],
-    assumptions=['e-mail obfuscation (c04_esc_html_obfuscated): the generator is abstract (any draw); which numeric form is chosen does not matter'],
-    outside=['"every body word appears in every format", order and nesting of writer markup are whole-tree properties of the writer switches: not encoded',
+               'opendocument-content.c: mmd_print_string_opendocument, mmd_print_char_opendocument', 'opml.c: mmd_print_source_opml', 'itmz.c: mmd_print_source_itmz',
+               'html.c / latex.c / beamer.c / memoir.c / opendocument-content.c: mmd_export_token_<w>, 24 block-level cases each (c04_nesting_*)'],
+    stubs=['d_string.c -> ds_model (C19)', 'c04_nesting_*: d_string.c -> ds_sink (streams appended characters to the recogniser); tree walkers -> no-ops (the table instance renders its header child with the real case); label/alignment/info-string helpers -> constants'],
+    assumptions=['c04_nesting_*: close_para set on entry; a definition list is not followed by another one (consecutive lists share one element); beamer heading cases excluded (frames are closed by the outline mechanism); LaTeX-family table header judged inside its table', 'e-mail obfuscation (c04_esc_html_obfuscated): the generator is abstract (any draw); which numeric form is chosen does not matter'],
+    outside=['"every body word appears in every format" and source order are whole-tree properties of the writer switches: not encoded', 'nesting of span-level markup (emphasis, links, notes) and balance that spans several cases (beamer frames)',
              'that every text position funnels into these escapers (syntactic side condition, not proved)'],
 )
 
@@ -17,12 +18,50 @@ def harnesses(tier):
     for fmt in range(8):
         N = (3 if fmt in (2, 3, 4) else 4) if tier == 'quick' else (4 if fmt in (2, 3, 4) else 6)
         hs.append(esccommon.escape('c04_esc', fmt, N, tier))
+    hs += nesting(tier)
+    return hs
+
+NEST_KINDS = ['BLOCK_BLOCKQUOTE', 'BLOCK_CODE_FENCED', 'BLOCK_CODE_INDENTED', 'BLOCK_DEFLIST', 'BLOCK_DEFINITION', 'BLOCK_H1', 'BLOCK_H3', 'BLOCK_H6', 'BLOCK_HR',
+              'BLOCK_LIST_BULLETED', 'BLOCK_LIST_BULLETED_LOOSE', 'BLOCK_LIST_ENUMERATED', 'BLOCK_LIST_ENUMERATED_LOOSE', 'BLOCK_LIST_ITEM', 'BLOCK_LIST_ITEM_TIGHT',
+              'BLOCK_PARA', 'BLOCK_SETEXT_1', 'BLOCK_SETEXT_2', 'BLOCK_TABLE', 'BLOCK_TABLE_HEADER', 'BLOCK_TABLE_SECTION', 'BLOCK_TERM', 'TABLE_ROW', 'TABLE_CELL']
+NEST_WRITERS = [
+    ('html', 'repo:html.c', 'mmd_export_token_html', 1, 'FORMAT_HTML', ['mmd_export_token_tree_html', 'mmd_export_token_tree_html_raw', 'mmd_export_token_tree_html_math'], []),
+    ('opendocument', 'repo:opendocument-content.c', 'mmd_export_token_opendocument', 1, 'FORMAT_FODT', ['mmd_export_token_tree_opendocument', 'mmd_export_token_tree_opendocument_raw', 'mmd_export_token_tree_opendocument_math'], []),
+    ('latex', 'repo:latex.c', 'mmd_export_token_latex', 0, 'FORMAT_LATEX', ['mmd_export_token_tree_latex', 'mmd_export_token_tree_latex_raw', 'mmd_export_token_tree_latex_tt'], []),
+    ('beamer', 'repo:beamer.c', 'mmd_export_token_beamer', 0, 'FORMAT_BEAMER', ['mmd_export_token_tree_beamer', 'mmd_export_token_tree_latex_raw', 'mmd_export_token_tree_latex'], ['repo:latex.c']),
+    ('memoir', 'repo:memoir.c', 'mmd_export_token_memoir', 0, 'FORMAT_MEMOIR', ['mmd_export_token_tree_memoir', 'mmd_export_token_tree_latex_raw', 'mmd_export_token_tree_latex'], ['repo:latex.c']),
+]
+
+def nesting(tier):
+    hs = []
+    for nm, unit, fn, fam, fmt, trees, more in NEST_WRITERS:
+        for k in NEST_KINDS:
+            if nm == 'beamer' and (k.startswith('BLOCK_H') and k != 'BLOCK_HR' or k.startswith('BLOCK_SETEXT')):
+                continue          # beamer opens a frame at a heading and closes it through the outline mechanism (mmd_outline_add_beamer), not in the heading's case
+            if fam == 0 and k == 'BLOCK_TABLE_HEADER':
+                continue          # LaTeX family: the header's case opens tabulary, the table's case closes it -- judged together in the BLOCK_TABLE instance
+            rm = [t for t in trees if not (more and 'latex' in t)]
+            units = [dict(src=unit, remove=rm, cflags=['-Dexit=verif_exit'])]
+            if more:
+                # beamer/memoir fall back to the LaTeX writer for the kinds they do not handle themselves: link it, with its tree walkers removed
+                units.append(dict(src='repo:latex.c', remove=['mmd_export_token_tree_latex', 'mmd_export_token_tree_latex_raw', 'mmd_export_token_tree_latex_tt'], cflags=['-Dexit=verif_exit']))
+            d = dict(EXPORT=fn, FAMILY=fam, FMT=fmt, TY=k, TREE1=trees[0], TREE2=trees[1], TREE3=trees[2])
+            if more:
+                d['TREE4'] = 'mmd_export_token_tree_latex_tt'
+            hs.append(dict(name='c04_nesting_%s_%s' % (nm, k.lower()), src='c04/nesting.c', defs=d, pool_off=True,
+                           units=units + ['repo:token.c', 'repo:stack.c', 'repo:object_pool.c', 'repo:char.c', 'common/ds_sink.c'],
+                           nobody_ok='*', ignore_failed=['no-body'], unwind=200, timeout=600, mem_gb=4, functional=True, replay=False,
+                           bounds='one %s token with two children (paragraph or text), optional successor of any kind; all extension words, tight/loose, base header level 1..3, with/without info string' % k,
+                           desc='%s, case %s: what the case emits is balanced (%s)' % (fn, k, 'begin/end environments' if fam == 0 else 'elements')))
     return hs
 
 CLAIM = dict(
     text='For every byte string within the bound CBMC proves, on the real escaper of each textual format, that each character reserved in the '
          'target (& < > " in HTML/XML; \\\\ { } $ % & # _ ^ ~ in LaTeX) is emitted only inside an escape sequence and that undoing the '
-         'escaping returns exactly the input: the escaping half of the property, for all texts rather than sampled ones.',
-    note='trusted: CBMC; ds_model; the decoder vocabulary in harness/esc/escape.c; strings <= 3-6 bytes; word-preservation and nesting of the writers are outside',
-    technique='CBMC bounded model checking of the per-format escapers with an inverse-decoder oracle over all byte strings',
+         'escaping returns exactly the input: the escaping half of the property, for all texts rather than sampled ones.  The nesting half is '
+         'decided per block-level case of the five writers: what each case emits, for every extension word and every state it consults, is '
+         'streamed through a recogniser of the target nesting syntax and proved balanced with matching names.',
+    note='trusted: CBMC; ds_model / ds_sink; the decoder vocabulary in harness/esc/escape.c; strings <= 3-6 bytes; the nesting recognisers in harness/c04/nesting.c; '
+         'word-preservation, span-level markup and balance across cases (beamer frames, merged definition lists) are outside',
+    technique='CBMC bounded model checking of the per-format escapers with an inverse-decoder oracle over all byte strings; per-case balanced-markup recogniser over the real writer switches',
 )
